@@ -1754,7 +1754,6 @@ impl<'de> de::MapAccess<'de> for Compound<'_, 'de> {
                             Ordering::Less => {
                                 // by subtyping rules, expect_type can only be opt, reserved or null.
                                 let field = e.id.clone();
-                                self.de.set_field_name(field.clone());
                                 let expect = e.ty.clone();
                                 *expect_idx += 1;
                                 self.de.expect_type = self
@@ -1768,6 +1767,8 @@ impl<'de> de::MapAccess<'de> for Compound<'_, 'de> {
                                     ),
                                     format!("field {field} is not optional field")
                                 );
+                                // only now: an error above must not leave a pending field name behind
+                                self.de.set_field_name(field);
                                 self.de.wire_type = TypeInner::Null.into();
                             }
                             Ordering::Greater => {
